@@ -15,7 +15,7 @@ def run(ctx):
     stages.chan_family(ctx, ["C08."], lambda s: s["op"] in ("DataQueued", "DataReceived", "SetDataLimit"), seq_variants=variants, seq_roles=["respPush", "respPull"],
                        seqs_quick=(12, 16), seqs_thorough=(150, 26))
     stages.mgr_family(ctx, ["C08.", "C04.rejectedUpdateFails"], ["all"], lambda s: s["stim"]["kind"] in ("OnDataQueued", "OnDataReceived", "UpdateValidation"),
-                      quick_n=3000, model=not ctx.quick(), sims=False, invariants=["M_C04_Faithful"])
+                      quick_n=3000, model=not ctx.quick(), sims=False, invariants=["M_C04_Faithful"], keep=lambda l: any(k in l for k in ('"kind":"UpdateValidation"', '"kind":"OnDataQueued"', '"kind":"OnDataReceived"')))
     # transport level, real manager + real graphsync adapter: the re-validation's resume must be the last word the request hears
     b = ctx.go_bin("lockx")
     out = ctx.path("cbrace.ndjson")
